@@ -75,7 +75,7 @@ def atoms(t, stop_ops=(), seen=None):
             continue
         seen.add(x.id)
         op = x.op
-        if op in stop_ops:
+        if op in stop_ops or ("fold" in stop_ops and op == "phi" and is_loop_acc(x)):
             continue
         p = path_of(x)
         if p is not None:
@@ -330,7 +330,8 @@ def parts_of(t, _stack=()):
                     uniq.append(b)
             pre = list(uniq[0]) if len(uniq) == 1 else ([("alt", uniq)] if uniq else [])
             for l in loops:
-                pre.append(("repeat", l))
+                if l:                      # a loop path that appends nothing contributes nothing
+                    pre.append(("repeat", l))
             return pre + parts[::-1]
         parts.append(("base", cur))
         break
@@ -471,6 +472,14 @@ def whole_of(t, eng=None, ordered=False):
             t = t.args[0]
         elif op == "phi" and eng is not None:
             pr = parts_of(t)
+            first_src = None
+            if len(pr) == 2 and pr[0][0] == "base" and is_t(pr[0][1]) and pr[0][1].op == "agg" and pr[0][1].args[0] == "array" and \
+                    len(pr[0][1].args) == 2:
+                # vec![f(first)] followed by one push per remaining element: `first = it.next(); for x in it { v.push(f(x)) }`
+                firsts = find_all(pr[0][1].args[1], lambda z: z.op == "index" and is_t(z.args[1]) and z.args[1].op == "int" and z.args[1].args[0] == 0)
+                if len(firsts) == 1 and not find_all(pr[0][1].args[1], lambda z: z.op == "elem"):
+                    first_src = firsts[0].args[0]
+                    pr = pr[1:]
             if not (len(pr) == 1 and pr[0][0] == "repeat" and len(pr[0][1]) == 1 and pr[0][1][0][0] in ("byte", "part")):
                 return t if not pr else None
             if pr[0][1][0][0] == "part":
@@ -482,12 +491,151 @@ def whole_of(t, eng=None, ordered=False):
                 return None
             site = sites.pop()
             its = [e["argv"][0] for e in calls(eng, "Iterator::next")
-                   if e["argv"] and e["argv"][0] is not None and contains(e["argv"][0], lambda z: z.op == "iter" and site in z.args[2:])]
+                   if e["argv"] and e["argv"][0] is not None and contains(e["argv"][0], lambda z: z.op == "iter" and site in z.args[2:])
+                   and e.get("result") is not None and contains(e["result"], lambda z: z.op == "elem" and site in z.args[1:])]
             if len(its) != 1:
                 return None
             t = its[0]
+            if first_src is not None:
+                # the loop must run over exactly the rest of the collection whose first element was taken
+                if not (t.op == "adapted" and t.args[1] == "skip" and is_t(t.args[2]) and t.args[2].op == "int" and t.args[2].args[0] == 1):
+                    return None
+                t = t.args[0]
+                b2 = whole_of(t, eng, ordered)
+                return b2 if b2 is first_src else None
         elif op in ("param", "field", "payload", "phi"):
             return t
         else:
             return None
     return None
+
+
+# ---- loop accumulators seen as folds ---------------------------------------------------------------------------------
+_LOOP_ACC = {}
+
+
+def is_loop_acc(t):
+    """t is a join whose value on some incoming edge is computed from t itself: the accumulator of an explicit loop
+    (the same thing a `fold` term stands for when the loop is written with an iterator adaptor)"""
+    if not is_t(t) or t.op != "phi":
+        return False
+    inc = PHI.get(t.args[0]) or {}
+    key = (t.id, tuple(sorted((str(k), v.id) for k, v in inc.items() if is_t(v))))
+    r = _LOOP_ACC.get(key)
+    if r is None:
+        r = False
+        for v in inc.values():
+            if v is t:
+                continue
+            # bounded search for t inside v without expanding other joins' history twice
+            seen, stack, n = set(), [v], 0
+            while stack and n < 4000:
+                x = stack.pop()
+                n += 1
+                if isinstance(x, (tuple, frozenset, list)):
+                    stack.extend(x)
+                    continue
+                if not is_t(x) or x.id in seen:
+                    continue
+                seen.add(x.id)
+                if x is t:
+                    r = True
+                    break
+                if x.op == "phi":
+                    stack.extend((PHI.get(x.args[0]) or {}).values())
+                    continue
+                stack.extend(x.args)
+            if r:
+                break
+        _LOOP_ACC[key] = r
+    return r
+
+
+def fold_view(t, eng=None):
+    """(init, body, iterator, acc) of a fold written either with Iterator::fold or as an explicit loop over an
+    accumulator; None otherwise.  For the loop form the iterator is looked up through the element the body uses."""
+    if not is_t(t):
+        return None
+    if t.op == "fold":
+        return t.args
+    if not is_loop_acc(t):
+        return None
+    inc = PHI.get(t.args[0]) or {}
+    inits = []
+    bodies = []
+    for v in inc.values():
+        if v is t:
+            continue
+        (bodies if contains(v, lambda z: z is t) else inits).append(v)
+    inits = list({v.id: v for v in inits}.values())
+    bodies = list({v.id: v for v in bodies}.values())
+    if len(inits) != 1 or len(bodies) != 1:
+        return None
+    it = None
+    if eng is not None:
+        sites = {z.args[1] for z in find_all(bodies[0], lambda z: z.op == "elem" and len(z.args) >= 2)}
+        ps = phi_site(eng, t.args[0])
+        its = []
+        for site in sites:
+            its += [e["argv"][0] for e in calls(eng, "Iterator::next")
+                    if e["argv"] and e["argv"][0] is not None and e["argv"][0].op in ("iter", "adapted", "cloned_iter", "enumerated", "zipped", "mapped", "filtered")
+                    and (ps is None or e["frame"] == ps[0])
+                    and any(z.op == "iter" and site in z.args[2:] for z in [e["argv"][0]] + find_all(e["argv"][0], lambda z: z.op == "iter"))
+                    and e.get("result") is not None and contains(e["result"], lambda z: z.op == "elem" and site in z.args[1:])]
+        its = list({x.id: x for x in its}.values())
+        if len(its) == 1:
+            it = its[0]
+    return (inits[0], bodies[0], it, t)
+
+
+def traversal_of(eng, elem, ordered=False):
+    """for elem(src, site): the collection the loop / adaptor chain producing it traverses completely (see whole_of)"""
+    if not (is_t(elem) and elem.op == "elem" and len(elem.args) >= 2):
+        return None
+    site = elem.args[1]
+    its = [e["argv"][0] for e in calls(eng, "Iterator::next")
+           if e["argv"] and e["argv"][0] is not None and contains(e["argv"][0], lambda z: z.op == "iter" and site in z.args[2:])
+           and e.get("result") is not None and contains(e["result"], lambda z: z.op == "elem" and site in z.args[1:])]
+    its = list({x.id: x for x in its}.values())
+    if len(its) != 1:
+        return None
+    return whole_of(its[0], eng, ordered)
+
+
+def substitute(t, old, new, _memo=None):
+    """t with every occurrence of the term `old` replaced by `new` (tuples inside arguments are rebuilt too)"""
+    if _memo is None:
+        _memo = {}
+    if is_t(t):
+        if t is old:
+            return new
+        r = _memo.get(t.id)
+        if r is None:
+            args = [substitute(a, old, new, _memo) for a in t.args]
+            r = t if all(a is b for a, b in zip(args, t.args)) else mk(t.op, *args)
+            _memo[t.id] = r
+        return r
+    if isinstance(t, tuple):
+        return tuple(substitute(a, old, new, _memo) for a in t)
+    return t
+
+
+def unroll_literal_loops(parts):
+    """a loop over an array literal `for p in [a, b, c] { out.extend(f(p)) }` appends f(a), f(b), f(c) in order: replace the
+    ('repeat', body) whose body mentions one oneof(a, b, c) element by the bodies for each element"""
+    out = []
+    for p in parts:
+        if p[0] == "repeat":
+            ones = {}
+            for q in p[1]:
+                if len(q) > 1 and is_t(q[1]):
+                    for o in find_all(q[1], lambda z: z.op == "oneof"):
+                        ones[o.id] = o
+            if len(ones) == 1:
+                o = list(ones.values())[0]
+                for a in o.args:
+                    for q in p[1]:
+                        out.append((q[0], substitute(q[1], o, a)) if len(q) > 1 and is_t(q[1]) else q)
+                continue
+        out.append(p)
+    return out
